@@ -88,6 +88,10 @@ pub fn build() -> ContentZoo {
       }
     }
   }
+  // one inscription per media kind ord distinguishes when it builds a preview page
+  for ct in ["audio/mpeg", "video/mp4", "font/woff2", "model/gltf+json", "application/pdf", "text/markdown", "text/javascript", "application/json", "image/svg+xml", "text/css", "application/yaml"] {
+    add(&mut zoo, &mut items, format!("media:{ct}"), Some(ct.as_bytes().to_vec()), None, Some(format!("body of {ct}").into_bytes()), None);
+  }
   let p = add(&mut zoo, &mut items, "P".into(), Some(b"image/png".to_vec()), None, Some(b"PNG-TARGET-BODY".to_vec()), None);
   let pbr = add(&mut zoo, &mut items, "PBR".into(), Some(b"text/plain".to_vec()), Some(b"br".to_vec()), Some(brotli(b"brotli target body")), None);
   let h = add(&mut zoo, &mut items, "H".into(), Some(b"image/png".to_vec()), None, Some(HIDDEN_TARGET_BODY.to_vec()), None);
